@@ -181,9 +181,24 @@ def ordered(layer):
 
 
 def delta_obs(layer):
-    """upper bound, computable from the output alone, on the displacement of a
-    soft wall: (sum |pos - target| + n/2) / 1e10"""
-    return (sum(abs(F(it[3]) - F(it[0])) for it in layer) + F(len(layer), 2)) / W
+    """how far a 1e10-weight wall can give way, computed from the output alone:
+    (sum |reported - target|) / 1e10"""
+    return sum(abs(F(it[3]) - F(it[0])) for it in layer) / W
+
+
+SOFT_WALL = "soft-wall-slack"
+STUB_GAP = "stub-label-stub-gap"
+
+
+def tagged(sig, text):
+    return "[%s] %s" % (sig, text)
+
+
+def matches(finding, failure, sig):
+    """a failure belongs to an open known finding iff the oracle tagged it with
+    that finding's signature (the oracle tags only failures that meet the
+    finding's exact criterion; everything else is reported untagged)"""
+    return finding.get("signature") == sig and isinstance(failure, str) and failure.startswith("[%s] " % sig)
 
 
 def needed_length(its, ns):
@@ -443,6 +458,44 @@ def _origin_spec(rng):
                                      "nodeSpacing": rng.choice([3, 0, 2.5]), "density": rng.choice([0.85, 1, 0.5])}}
 
 
+def _stubgap_spec(rng):
+    """a narrow label between two stubs on (nearly) the same target: the only
+    shape in which the gaps along the chain do not add up to the pairwise gap
+    of the two stubs (known finding stub-label-stub-gap)"""
+    c = rng.choice([50.5, 50.5, 50, 49.75, 33.5, 60.25])
+    narrow = rng.choice([0.25, 0.25, 0.5, 1, 1.5, 0.125])
+    wide = rng.choice([30, 30, 25.5, 28])
+    nodes = [[0, 40], [c, wide], [c + rng.choice([0, 0, 0.25, -0.25]), narrow], [c + rng.choice([0, 0, 0.5]), wide], [100, 40]]
+    if rng.random() < 0.3:
+        nodes.insert(3, [c, rng.choice([0.25, 0.5])])
+    return {"nodes": nodes, "opts": {"minPos": 0, "maxPos": 100, "algorithm": "simple", "density": 1,
+                                     "nodeSpacing": rng.choice([0, 0, 0.25, 0.5, 0.125]),
+                                     "stubWidth": rng.choice([1, 1, 0, 0.5, 2])}}
+
+
+def _farwall_spec(rng):
+    """targets 1e9 .. 1e12 beyond a bound: the 1e10-weight walls give way by
+    (distance)/1e10, i.e. by 0.1 .. 100 units (known finding soft-wall-slack)"""
+    lo = rng.choice([0, 0, -50, 10.5, None])
+    hi = rng.choice([100, 100, 300, 1000.5, None])
+    if lo is None and hi is None:
+        hi = 100
+    a = 0 if lo is None else lo
+    b = a + 500 if hi is None else hi
+    nodes = []
+    for _ in range(rng.randint(0, 6)):
+        nodes.append([rng.randint(int(a), int(b)), rng.choice([10, 5, 20.5, 1])])
+    for _ in range(rng.randint(1, 3)):
+        mag = rng.choice([1e9, 3e9, 1e10, 2.5e10, 1e11, 5e11, 1e12])
+        side = rng.choice([-1, 1])
+        if (side > 0 and hi is None) or (side < 0 and lo is None):
+            side = -side
+        nodes.append([side * mag + rng.randint(0, 1000), rng.choice([10, 5, 20.5, 1])])
+    rng.shuffle(nodes)
+    return {"nodes": nodes, "opts": {"minPos": lo, "maxPos": hi, "algorithm": rng.choice(["none", "none", "simple", "overlap"]),
+                                     "nodeSpacing": rng.choice([3, 0, 2.5])}}
+
+
 def gen_specs(rng, tier):
     """yields (kind, py-input) pairs"""
     big = tier != "quick"
@@ -471,6 +524,10 @@ def gen_specs(rng, tier):
         yield "stubs", _stub_spec(rng)
     for _ in range(3000 if big else 250):
         yield "origin", _origin_spec(rng)
+    for _ in range(1200 if big else 80):
+        yield "farwall", _farwall_spec(rng)
+    for _ in range(800 if big else 60):
+        yield "stubgap", _stubgap_spec(rng)
     # single items, and a lone item against each wall
     for p, w, o in [(5, 10, {}), (-50, 10, {}), (5, 10, {"maxPos": 8}), (100, 10, {"maxPos": 50}),
                     (2.5, 1, {"minPos": None}), (0.5, 1, {"minPos": None}), (1.5, 1, {"minPos": None}),
